@@ -45,6 +45,8 @@ def run(res, args):
         docs.append((0, 0, doc))
     for _ in range(150 if quick else 5000):
         docs.append((0, 0, wbgen.syncml_doc(d, rng, inner)))
+    for _ in range(80 if quick else 3000):
+        docs.append((0, 0, wbgen.literal_syncml_shape(d, rng)[1]))
     pev_raw, _ = corr.run_lines(hp, [f'PARSE {f} {m} {doc.hex()}' for f, m, doc in docs], env=b.env())
     tuples = [(2, 0, 1), (2, 0, 0), (0, 0, 1), (0, 0, 0), (1, 0, 0), (1, 2, 1), (1, 4, 0), (1, 255, 0)]
     lines, meta = [], []
